@@ -52,9 +52,15 @@ def func_ranges(go_file):
 def lines_mentioned(diag, fname):
     """lines of file `fname` that a diagnostic touches: its position plus every file:line:col in its message"""
     ls = set()
-    if diag["file"].endswith(fname):
+
+    def same(a, b):
+        # one path is a suffix of the other at a path-component boundary (messages shorten paths to <dir>/<file>)
+        pa, pb = a.split("/"), b.split("/")
+        k = min(len(pa), len(pb))
+        return pa[-k:] == pb[-k:]
+    if same(diag["file"], fname):
         ls.add(diag["line"])
-    for m in re.finditer(r"([\w./-]+\.go):(\d+):(\d+)", diag["message"]):
-        if m.group(1).endswith(fname) or fname.endswith(m.group(1)):
+    for m in re.finditer(r"([\w./%-]+\.(?:go|y|tmpl|templ)):(\d+)(?::(\d+))?", diag["message"]):
+        if same(m.group(1), fname):
             ls.add(int(m.group(2)))
     return ls
